@@ -647,8 +647,12 @@ func (g *gen) codecDrivers(m *Message) {
 // harnessPerField emits VH_<prop>_<Msg>_<Field> and the H2 variant.
 // wantH2: thorough = every field; quick = the first field of each (wire kind, cardinality) class per message
 func (g *gen) wantH2(prop string, m *Message, f *Field) bool {
-	if g.tier == "thorough" {
+	big := len(m.All) > 30
+	if g.tier == "thorough" && !big {
 		return true
+	}
+	if g.tier != "thorough" && big {
+		return false // every other field populated in a 100-field message: minutes per harness
 	}
 	if f.Card == "map" || (f.Card == "repeated" && f.Kind != "message") {
 		return false
